@@ -25,7 +25,10 @@ SWITCHES = ["StaleSettle", "RefundAfterGasUsed", "DropRemovedRewards"]
 # the driver options that make the real chain use the model's period / delays
 OPTS_SMALL = {"period": 2, "mrp": 1, "wdelay": 1, "inact": 2}
 OPTS_DEFAULT = {}                     # Appendix B: period 4, MaxRewardsPeriod 2, withdraw delay 6, inactivity wait 8
-OPTS_MRP1 = {"mrp": 1}
+# second table: forced settlement every period, a longer inactivity wait (so that a penalty can follow the release of a
+# withdrawal of the same validator while the finished record is still retained) and a rewards pool that runs dry
+OPTS_MRP1 = {"mrp": 1, "inact": 12, "pool": 1200}
+OPTS_EMPTY_POOL = {"pool": 0}
 
 PROPS = "FeesEqualRewards SubsidyFromPool PenaltyArrives ReleasedOnce RewardsNeverLost FailedActivationRefunded"
 
@@ -65,7 +68,12 @@ def scenarios():
     s2 = [blk("g1", tx("withdraw", a="g2", v="g2", b="u1", x=505))] + [blk("g1") for _ in range(4)]
     # forced settlement of a House validator (MaxRewardsPeriod)
     s3 = [blk("g1") for _ in range(12)]
-    return [s1, s2, s3]
+    # a withdrawal of g3 (never proposes) is released at block 11; with the inactivity wait of the second table its penalty
+    # comes at block 15, while the finished record is still in the queue (retention)
+    # (the transfer with a gas limit near the block's goes first: it needs nearly the whole gas pool to start)
+    s4 = [blk("g1", tx("widegas", a="u2", b="u1", x=3), tx("transfer", a="u2", b="u1", x=1), tx("withdraw", a="g3", v="g3", b="u3", x=100))] \
+        + [blk("g1") for _ in range(2)] + [blk("g1", tx("transfer", a="u2", b="u1", x=2, p=2))] + [blk("g1") for _ in range(14)]
+    return [s1, s2, s3, s4]
 
 
 def nontrivial(h):
@@ -184,7 +192,7 @@ def run(ctx):
     num = 30 if quick else 500
     depth = 8 * full["MaxBlocks"] + 20
     ga = ctx.tlc_must("Staking", cfg(full, "G"), name="G2_simulate_mrp2", timeout=2400, simulate={"num": num}, depth=depth)
-    gb = ctx.tlc_must("Staking", cfg(dict(full, MRP=1), "G"), name="G2_simulate_mrp1", timeout=2400,
+    gb = ctx.tlc_must("Staking", cfg(dict(full, MRP=1, Wait=12), "G"), name="G2_simulate_mrp1", timeout=2400,
                       simulate={"num": num}, depth=depth, extra=["-aril", "7"])
     simA = [v["h"] for v in ga.printed if isinstance(v, dict) and v.get("kind") == "B"]
     simB = [v["h"] for v in gb.printed if isinstance(v, dict) and v.get("kind") == "B"]
@@ -199,6 +207,7 @@ def run(ctx):
     small_traces = judge(ctx, small, OPTS_SMALL, "small", expect)
     default_traces = judge(ctx, [b for _, bs, o in wit if not o for b in bs] + scen + simA, OPTS_DEFAULT, "default")
     judge(ctx, scen + simB, OPTS_MRP1, "mrp1")
+    judge(ctx, [scen[0], scen[2]] + simA[:3], OPTS_EMPTY_POOL, "emptypool")
     for i, (f, bs, o) in enumerate(wit):
         if o:
             judge(ctx, bs, o, "wit%d" % i)
